@@ -7,29 +7,40 @@ from ..gen import progs
 ASSUMPTIONS = ["programs are generated from the operator/kind/value-class table of harness/gen/progs.py; "
                "the direct oracle evaluates A*B-C mod p for every constraint recorded by the real backend"]
 LEVELS = "VSW"
+BACKENDS = [("snarkjs", common.BN128, 0.61), ("zkinterface", common.BN128, 0.13), ("zkifbellman", common.BLS381, 0.13),
+            ("zkifbulletproofs", common.ED25519, 0.13)]
 
 
 def sig_of(rec, k):
     """signature of an unsatisfied constraint: the instruction shape that emitted it"""
     m = rec.case.meta
     return {"shape": m.get("shape"), "op": m.get("op"), "kinds": m.get("kinds"),
-            "guarded": "genter" in " ".join(rec.case.instrs)}
+            "guarded": "genter" in " ".join(rec.case.instrs), "backend": m.get("backend", "snarkjs")}
 
 
 def explore(ctx, extended=False, focus=None):
     ex = Exploration()
     ex.rule = ("programs over the public API drawn from the operator x operand-kind x value-class x configuration table "
-               "(85% inside the documented domain); executed on the real snarkjs backend and on the Lean model, "
+               "(85% inside the documented domain); executed on the real snarkjs, zkinterface, zkifbellman and zkifbulletproofs backends (own field each) and on the Lean model, "
                "compared at levels V+S+W; a case is non-trivial if it emitted a constraint or raised; distinct = "
                "distinct (shape, operator set, kinds, bitlength, error class) tuples")
-    n = ctx.n(400, 20000) if not extended else ctx.n(3000, 20000)
-    from ..propsbase import corpus_cases
-    cases = corpus_cases("C01") + progs.generate(ctx.rnd, n, "c01x" if extended else "c01_")
-    # C01 is about runs where the user has not switched error checking off
-    cases = [c for c in cases if c.cfg["ign"] == 0 and not any(i.startswith("set ign") for i in c.instrs)]
-    recs = progcheck.execute(cases)
+    n = ctx.n(2400, 60000) if not extended else ctx.n(12000, 60000)
+    from ..propsbase import corpus_cases, execute_all
+    mix = [(5, progs.op_case), (1, progs.unop_case), (2, progs.method_case), (1, progs.ite_case), (2, progs.chain_case),
+           (3, progs.guarded_case), (1, progs.array_case)]
+    recs = []
+    # every loadable backend field: the in-memory backends all record (pubvals, privvals, constraints)
+    for be, p, share in BACKENDS:
+        k = int(n * share)
+        cases = (corpus_cases("C01") if be == "snarkjs" else []) + progs.generate(ctx.rnd, k, ("c01x" if extended else "c01_") + be[-4:], mix=mix, p=p)
+        # C01 is about runs where the user has not switched error checking off
+        cases = [c for c in cases if c.cfg["ign"] == 0 and not any(i.startswith("set ign") for i in c.instrs)]
+        for c in cases:
+            c.meta["backend"] = be
+        recs += execute_all(cases, backend=be)
     for r in recs:
         ex.evaluations += 1
+        ex.count(f"backend:{r.case.meta.get('backend')}")
         if r.harness_error:
             raise common.Infra("worker: " + r.py_raw[:500])
         m = r.case.meta
@@ -48,7 +59,7 @@ def explore(ctx, extended=False, focus=None):
         if r.ok and r.unsat:
             ex.violations.append(Violation(sig_of(r, r.unsat[0]),
                                            f"constraint #{r.unsat[0]} ({r.cons[r.unsat[0]][:100]}) is not satisfied by the recorded witness",
-                                           {"case": r.case.line(), "unsat": r.unsat}))
+                                           {"case": r.case.line(), "unsat": r.unsat, "backend": r.case.meta.get("backend", "snarkjs")}))
         if len(ex.samples) < 6 and r.cons:
             ex.samples.append(r.case.line())
     return ex
@@ -57,7 +68,7 @@ def explore(ctx, extended=False, focus=None):
 def replay(ctx, payload):
     from ..gen.progs import Case
     line = payload["replay"]["case"]
-    out = common.run_workers([line])
+    out = common.run_workers([line], payload["replay"].get("backend", "snarkjs"))
     print(out[0][:2000])
     r = progcheck.Rec(None, out[0])
     if r.ok and r.unsat:
